@@ -303,11 +303,16 @@ func leanStrs(xs []string) string {
 func main() {
 	repo := flag.String("repo", "/repo", "repository")
 	out := flag.String("out", "", "output file")
-	code := flag.String("code", "", "second output: Lean translation of the whitelisted functions (Code.lean)")
+	code := flag.String("code", "", "second output: Lean translation of the whitelisted functions (Code.lean and, next to it, CodePrelude.lean and one Code<Topic>.lean per topic)")
 	flag.Parse()
 	lz := load(*repo)
 	if *code != "" {
-		defer genCode(lz, *repo, *code)
+		// per-topic translation (code_topics.go); status 3 = some topic was refused
+		defer func() {
+			if genCodeTopics(lz, *repo, *code) {
+				os.Exit(3)
+			}
+		}()
 	}
 	sfx := load(filepath.Join(*repo, "suffix"))
 	fns := lz.funcs()
@@ -316,7 +321,7 @@ func main() {
 	w("-- GENERATED by tools/extract from the repository source — do not edit; regenerated on every check")
 	w("namespace LZ.Facts")
 	w("")
-	w("/-! ### literal constants of the modelled functions, in source order -/")
+	w("/-! ### literal constants of the modelled functions, in source order (information; only the lists\n     named in `shapeOK` are used by position) -/")
 	lits := map[string][]string{}
 	strl := map[string][]string{}
 	var names []fnKey
@@ -369,38 +374,25 @@ func main() {
 		return "0"
 	}
 	w("")
-	w("/-! ### named constants used by the model (positions checked by `shapeOK`) -/")
+	w("/-! ### named constants used by the model -/")
 	w("def prime : Nat := %s", cst(lz, "prime"))
 	w("def noTrailingLiterals : Nat := %s", cst(lz, "NoTrailingLiterals"))
 	w("def maxUint32 : Int := %s", cst(lz, "maxUint32"))
 	w("def maxInt32 : Int := 2147483647")
-	w("def margin : Nat := %s", get("ParserBuffer_grow", 0))
-	w("def growMin : Nat := %s", get("ParserBuffer_grow", 3))
-	w("def chunkSize : Nat := %s", get("ParserBuffer_ReadFrom", 0))
-	w("def defWindowSize : Int := %s", get("BufConfig_SetDefaults", 1))
-	w("def shrinkSmallLimit : Int := %s", get("BufConfig_SetDefaults", 4))
-	w("def defShrinkSize : Int := %s", get("BufConfig_SetDefaults", 6))
-	w("def defBlockSize : Int := %s", get("BufConfig_SetDefaults", 8))
-	w("def defInputLen : Int := %s", get("hashConfig_SetDefaults", 1))
-	w("def defHashBits : Int := %s", get("hashConfig_SetDefaults", 3))
-	w("def dhSmallInputLen : Int := %s", get("dhConfig_SetDefaults", 1))
-	w("def defInputLen2Small : Int := %s", get("dhConfig_SetDefaults", 2))
-	w("def defInputLen2Large : Int := %s", get("dhConfig_SetDefaults", 3))
-	w("def defBucketInputLen : Int := %s", get("bucketConfig_SetDefaults", 1))
-	w("def defBucketHashBits : Int := %s", get("bucketConfig_SetDefaults", 3))
-	w("def defBucketSize : Int := %s", get("bucketConfig_SetDefaults", 5))
-	w("def defMinMatchLen : Int := %s", get("GSAPConfig_SetDefaults", 1))
-	w("def defOsapMinMatchLen : Int := %s", get("OSAPConfig_SetDefaults", 2))
-	w("def defMaxMatchLen : Int := %s", get("OSAPConfig_SetDefaults", 4))
-	w("def defCost : String := %s", gets("OSAPConfig_SetDefaults", 1))
-	w("def minInputLen : Int := %s", get("hashConfig_Verify", 0))
-	w("def maxInputLen : Int := %s", get("hashConfig_Verify", 1))
-	w("def maxHashBits : Int := %s", get("hashConfig_Verify", 2))
-	w("def maxBucketHashBits : Int := %s", get("bucketConfig_Verify", 2))
-	w("def minBucketSize : Int := %s", get("bucketConfig_Verify", 5))
-	w("def maxBucketSize : Int := %s", get("bucketConfig_Verify", 6))
-	w("def decDefWindowSize : Int := %s", get("DecoderConfig_SetDefaults", 1))
-	w("def decBufFactor : Int := %s", get("DecoderConfig_SetDefaults", 3))
+	// the constants of the functions the interpreter covers are derived from their
+	// behaviour (facts_sem.go); the position is only the fallback
+	sem := deriveSemanticFacts(lz, lits)
+	for _, nc := range pbufConsts {
+		w("%s", sem.line(nc, get(nc.key, nc.idx)))
+	}
+	w("def chunkSize : Nat := %s  -- positional: ParserBuffer.ReadFrom is neither translated nor interpreted (io.Reader)", get("ParserBuffer_ReadFrom", 0))
+	for _, nc := range semConsts {
+		pos := get(nc.key, nc.idx)
+		if nc.str {
+			pos = gets(nc.key, nc.idx)
+		}
+		w("%s", sem.line(nc, pos))
+	}
 	w("def suffixSizeThreshold : Int := %s", func() string {
 		fd := sfx.funcs()[fnKey{"", "Sort"}]
 		if fd == nil {
@@ -413,16 +405,32 @@ func main() {
 		return "0"
 	}())
 	w("")
-	w("/-- the literal lists have the shape the positions above assume -/")
+	if len(sem.extra) > 0 {
+		w("")
+		w("/-! ### further facts derived by running the functions -/")
+		for _, l := range sem.extra {
+			w("%s", l)
+		}
+	}
+	w("")
+	w("/-- the literal lists that are still used BY POSITION have the shape the positions assume")
+	w("    (the functions the translator does not cover, and positional fallbacks), and the")
+	w("    derived constants are consistent with each other -/")
 	w("def shapeOK : Bool :=")
-	w("  L_BufConfig_SetDefaults.length == 9 && L_hashConfig_SetDefaults.length == 4 &&")
-	w("  L_dhConfig_SetDefaults.length == 4 && L_bucketConfig_SetDefaults.length == 6 &&")
-	w("  L_GSAPConfig_SetDefaults.length == 2 && L_OSAPConfig_SetDefaults.length == 5 &&")
-	w("  L_hashConfig_Verify.length == 5 && L_bucketConfig_Verify.length == 7 &&")
-	w("  L_DecoderConfig_SetDefaults.length == 4 && L_ParserBuffer_grow.length == 7 &&")
-	w("  L_ParserBuffer_grow == [↑margin, 2, ↑margin, ↑growMin, ↑growMin, ↑margin, ↑margin] &&")
-	w("  L_ParserBuffer_Write == [↑margin] && L_ParserBuffer_ReadFrom == [↑chunkSize, ↑chunkSize, ↑margin, ↑margin] &&")
-	w("  L_ParserBuffer_Reset == [0, 0, 0, 0, ↑margin] && defBucketInputLen == defInputLen")
+	for _, g := range sem.guards() {
+		w("  %s &&", g)
+	}
+	for _, g := range sem.pbufGuards() {
+		w("  %s &&", g)
+	}
+	w("  defBucketInputLen == defInputLen%s",
+		func() string {
+			out := ""
+			for _, c := range sem.extraChk {
+				out += " &&\n  " + c
+			}
+			return out
+		}())
 	w("")
 	w("/-! ### configuration schema -/")
 	st := lz.structs()
